@@ -10,6 +10,7 @@ import TantivyModel.Model.Store.JsonNumber
 import TantivyModel.Proofs.Store.DocPath
 import TantivyModel.Proofs.Store.Framing
 import TantivyModel.Proofs.Store.WriterBound
+import TantivyModel.Model.Store.Utf8
 /-!
 # C09 — Stored documents are returned exactly as they were added
 
@@ -70,6 +71,19 @@ shortcut never drops a document) -/
 theorem C09_serialized_doc_nonempty (isStored : BitVec 32 → Bool) (doc : List (BitVec 32 × FieldInput)) :
     serializeDoc isStored doc ≠ [] :=
   encStoredDoc_ne_nil _
+
+/-! ### the UTF-8 check of `read_to_string` -/
+
+/-- with the UTF-8 check the real deserializer performs on every string it reads, a stored document
+comes back exactly iff all its strings (texts, facets, object keys) are UTF-8 — which every
+document added through the API satisfies (`String` / `&str` values); otherwise it is rejected, never
+altered -/
+theorem C09_strict_decode (d : StoredDoc) (trailing : Bytes) :
+    deserializeDocStrict (encStoredDoc d ++ trailing)
+      = if d.all (fun fv => stringsValid fv.2) then some d else none := by
+  unfold deserializeDocStrict
+  rw [deserialize_encStoredDoc]
+  rfl
 
 /-! ### `TantivyDocument` (CompactDoc): length-prefixed values in `node_data` -/
 
@@ -818,5 +832,10 @@ example : pickDocs ([(fun (_ : Nat) => true, [[1], [2]]), (fun i => i != 0, [[3]
 
 /-- document 2 of a segment whose document 1 is deleted has rank 1 -/
 example : numAlive (fun i => i != 1) 2 = 1 ∧ (liveDocs (fun i => i != 1) 0 [[1], [2], [3]])[1]? = some [3] := by decide
+
+example : utf8Valid [0xE6, 0x97, 0xA5, 0x41, 0xF0, 0x9F, 0x99, 0x82] = true := by decide
+example : utf8Valid [0xC0, 0x80] = false ∧ utf8Valid [0xED, 0xA0, 0x80] = false
+    ∧ utf8Valid [0xF4, 0x90, 0x80, 0x80] = false ∧ utf8Valid [0xE6, 0x97] = false := by decide
+example : deserializeDocStrict (encStoredDoc [(0, .str [0xFF])]) = none := by decide +kernel
 
 end TantivyModel.C09
